@@ -138,30 +138,80 @@ pub fn unique_edges(all_edges: &[[u32; 2]]) -> Vec<([u32; 2], usize)> {
     unique_count
 }
 
-fn boundary_loops(boundary_map: HashMap<u32, u32>) -> Vec<Vec<u32>> {
+fn boundary_loops(boundary_edges: Vec<[u32; 2]>) -> Vec<Vec<u32>> {
+    // Each boundary edge is stored in the direction of the face that owns it. A vertex can have
+    // more than one outgoing edge (faces which touch only at that vertex) or none at all (faces
+    // with inconsistent winding), so the edges are consumed one at a time instead of following a
+    // single successor per vertex. Every vertex touches an even number of boundary edges, so a
+    // walk which keeps taking unused edges can only run out of them on the vertex it started on.
+    let mut outgoing: HashMap<u32, Vec<usize>> = HashMap::new();
+    let mut incoming: HashMap<u32, Vec<usize>> = HashMap::new();
+    for (i, edge) in boundary_edges.iter().enumerate() {
+        outgoing.entry(edge[0]).or_default().push(i);
+        incoming.entry(edge[1]).or_default().push(i);
+    }
+
+    let mut used = vec![false; boundary_edges.len()];
+    let mut queue: HashSet<u32> = boundary_edges.iter().map(|e| e[0]).collect();
     let mut all_loops = Vec::new();
-    let mut working = Vec::new();
-    let mut queue: HashSet<u32> = boundary_map.keys().copied().collect();
 
-    while !queue.is_empty() {
-        if let Some(last_id) = working.last() {
-            let next_id = boundary_map[last_id];
-            queue.remove(&next_id);
+    while let Some(&start_id) = queue.iter().next() {
+        // The vertices of the current walk and where each one is in it
+        let mut working = vec![start_id];
+        let mut position: HashMap<u32, usize> = HashMap::new();
+        position.insert(start_id, 0);
 
-            if *working.first().unwrap() == next_id {
-                working.reverse();
-                all_loops.push(working);
-                working = Vec::new();
-            } else {
-                working.push(next_id);
+        loop {
+            let last_id = *working.last().unwrap();
+            let next_id = match take_unused(&mut outgoing, last_id, &mut used) {
+                Some(i) => Some(boundary_edges[i][1]),
+                None => {
+                    take_unused(&mut incoming, last_id, &mut used).map(|i| boundary_edges[i][0])
+                }
+            };
+
+            let Some(next_id) = next_id else {
+                // No unused edge is left at this vertex
+                queue.remove(&last_id);
+                position.remove(&last_id);
+                working.pop();
+                if working.is_empty() {
+                    break;
+                }
+                continue;
+            };
+
+            // Coming back to a vertex of the walk closes a loop, which is cut off the walk
+            if let Some(at) = position.get(&next_id).copied() {
+                let mut closed = working.split_off(at);
+                for v in closed.iter() {
+                    position.remove(v);
+                }
+                closed.reverse();
+                all_loops.push(closed);
             }
-        } else {
-            let start_id = *queue.iter().next().unwrap();
-            working.push(start_id);
+
+            position.insert(next_id, working.len());
+            working.push(next_id);
         }
     }
 
     all_loops
+}
+
+fn take_unused(
+    table: &mut HashMap<u32, Vec<usize>>,
+    vertex: u32,
+    used: &mut [bool],
+) -> Option<usize> {
+    let candidates = table.get_mut(&vertex)?;
+    while let Some(i) = candidates.pop() {
+        if !used[i] {
+            used[i] = true;
+            return Some(i);
+        }
+    }
+    None
 }
 
 fn identify_edges(faces: &[[u32; 3]]) -> Result<(Vec<[u32; 2]>, Vec<[u32; 3]>, Vec<Vec<u32>>)> {
@@ -188,7 +238,7 @@ fn identify_edges(faces: &[[u32; 3]]) -> Result<(Vec<[u32; 2]>, Vec<[u32; 3]>, V
         .collect();
 
     // Let's remap the face edges to the unique edges and build the boundary map at the same time
-    let mut boundary_map = HashMap::new();
+    let mut boundary_edges = Vec::new();
     let mut face_edges = Vec::new();
     for face_chunk in direct_edges.chunks(3) {
         let i0 = to_unique_index[&edge_key(&face_chunk[0])];
@@ -197,17 +247,17 @@ fn identify_edges(faces: &[[u32; 3]]) -> Result<(Vec<[u32; 2]>, Vec<[u32; 3]>, V
         face_edges.push([i0 as u32, i1 as u32, i2 as u32]);
 
         if unique_edge_count[i0].1 == 1 {
-            boundary_map.insert(face_chunk[0][0], face_chunk[0][1]);
+            boundary_edges.push(face_chunk[0]);
         }
         if unique_edge_count[i1].1 == 1 {
-            boundary_map.insert(face_chunk[1][0], face_chunk[1][1]);
+            boundary_edges.push(face_chunk[1]);
         }
         if unique_edge_count[i2].1 == 1 {
-            boundary_map.insert(face_chunk[2][0], face_chunk[2][1]);
+            boundary_edges.push(face_chunk[2]);
         }
     }
 
-    let loops = boundary_loops(boundary_map);
+    let loops = boundary_loops(boundary_edges);
     let edges = unique_edge_count.iter().map(|(edge, _)| *edge).collect();
 
     Ok((edges, face_edges, loops))
